@@ -234,6 +234,7 @@ class Gen:
     def __init__(self, seed: int, error_codes: list[int], big_prob: float = 0.002):
         self.r = random.Random(seed)
         self.error_codes = error_codes
+        self._entity_counts = {}
         self.big_prob = big_prob
         self.max_big = 3
         self.stats: dict[str, int] = {}
@@ -347,6 +348,10 @@ class Gen:
         raise KeyError(kafka)
 
     def item(self, d: FDesc, depth, nonnull=False):
+        if d.array and d.item_nullable and not nonnull and self.r.random() < 0.3:
+            # arrays annotated tuple[X | None, ...] (the uuid arrays): a null ELEMENT is a well-typed value
+            self.count("array-item:null")
+            return NULL
         if d.ent is not None:
             return self.entity(d.ent, depth + 1, want_default=getattr(self, "_force_default", None))
         return self.prim(d.kafka)
@@ -354,7 +359,10 @@ class Gen:
     def field(self, d: FDesc, depth, want_default=None):
         r = self.r
         self._force_default = want_default
+        force_null_item = bool(d.array and d.item_nullable and getattr(self, "_force_null_items", False) and want_default is not True)
         if d.tag is not None:
+            if force_null_item:
+                want_default = False
             if want_default is None:
                 want_default = r.random() < 0.4
             if want_default:
@@ -377,6 +385,13 @@ class Gen:
             n = {"empty": 0, "one": 1}.get(c)
             if n is None:
                 n = r.randint(2, 4 if depth < 2 else 2)
+            if force_null_item:
+                # every other instance of a class with a tuple[X | None, ...] field holds a null ELEMENT there, alone or among others
+                n = max(n, 1)
+                items = [self.item(d, depth) for _ in range(n)]
+                items[r.randrange(n)] = NULL
+                self.count("array-item:null-forced")
+                return ("arr", items)
             return ("arr", [self.item(d, depth) for _ in range(n)])
         if d.nullable and r.random() < 0.35:
             self.count("nullable:null")
@@ -392,6 +407,9 @@ class Gen:
         """want_default: None = random per tagged field; True/False = force every tagged field (at
         every nesting level) to hold / not to hold its default"""
         vals = []
+        if depth == 0:
+            k = self._entity_counts[cls] = self._entity_counts.get(cls, 0) + 1
+            self._force_null_items = k % 2 == 0
         for d in describe(cls):
             v = self.field(d, depth, want_default=want_default)
             if v == ("__default__",):
